@@ -39,7 +39,8 @@ type DCfg struct {
 	PNotReady        float64
 	PUninitialized   float64
 	SmallPods        bool
-	OnePodPerNode    bool // every workload pod claims the same host port => one workload pod per node => many nodes
+	OnePodPerNode    bool                // every workload pod claims the same host port => one workload pod per node => many nodes
+	PodHook          func(p *corev1.Pod) // last word on every workload pod before it is created
 }
 
 func DefaultDCfg() DCfg {
@@ -118,6 +119,9 @@ func BuildDisruption(rng *rand.Rand, cfg DCfg) *DWorld {
 			if cfg.OnePodPerNode {
 				p.Spec.Containers[0].Ports = nil
 				gen.WithHostPort(9000, corev1.ProtocolTCP, "")(p)
+			}
+			if cfg.PodHook != nil {
+				cfg.PodHook(p)
 			}
 			pods = append(pods, p)
 		}
